@@ -5,7 +5,7 @@
 From Coq Require Import List Arith Bool.
 Import ListNotations.
 From C17 Require Import Sem Progs Static Annot FutRaw.
-From C17 Require Exec ExecLive Ss FutCopy0 Per Owner Sd WitnessR8 Conserve Pool ConserveAll PoolD PoolFin PoolRe PoolN PoolReD PoolReFin WaitQ WaitQAll FutPoll.
+From C17 Require Exec ExecLive Ss FutCopy0 Per Owner Sd WitnessR8 Conserve Pool ConserveAll PoolD PoolFin PoolRe PoolN PoolReD PoolReFin WaitQ WaitQAll FutPoll PoolWake PoolWake2 PoolReWake.
 From Coq Require Import Permutation.
 
 (* Data-race freedom of the model: whenever a thread is about to execute an instruction that reads
@@ -378,7 +378,7 @@ Print Assumptions c17_poolre_invariant.
 (* ---- The wait queues are exact, for EVERY scenario and every schedule (and, in WaitQ.WQI_step, for every program): a
    thread is asleep on condition c iff it is in c's wait queue, and no wait queue holds a thread twice.  So a Signal on
    a condition with a sleeper always finds a non-empty queue and wakes a thread that really sleeps on that condition
-   (ground work for the wake-up invariants; the ThreadPool wake-up invariant itself is not proved yet). *)
+   (ground work for the wake-up invariants, used by c17_pool_wakeup). *)
 Theorem c17_waitq_exact : forall s0 s, initial s0 -> reach P s0 s ->
   (forall u c, (exists m, stat (thr s u) = Asleep c m) <-> In u (wq s c)) /\ (forall c, NoDup (wq s c)).
 Proof. exact WaitQAll.waitq_exact. Qed.
@@ -418,6 +418,62 @@ Theorem c17_futpoll_unlocked_read_rejected :
   acc_var (nth 2 FutPoll.p_fpoll_poller_unlocked IEnd) = Some ISSET /\ gv ISSET = Some FM.
 Proof. exact FutPoll.unlocked_read_rejected. Qed.
 Print Assumptions c17_futpoll_unlocked_read_rejected.
+
+(* ---- ThreadPool (init_pool n), no lost wake-up and no deadlock of JoinAll(), every schedule, any n.
+   c17_pool_wakeup: whenever a closure is queued, the owner is at the Signal that announces it (pc 19) or some worker is
+   neither asleep nor finished -- a queued closure always has somebody who will take it (a finished worker or one past
+   the shutdown test implies an empty queue by c17_pool_invariant).  It rests on the exact wait queues (c17_waitq_exact):
+   the Signal wakes a thread that really sleeps on the pool's condition, and that thread is a worker.
+   c17_pool_no_sleeper_after_shutdown: once JoinAll() has broadcast the shutdown (owner pc >= 25) no worker is asleep
+   and none is between the shutdown test and the wait.  c17_pool_no_deadlock: the owner inside JoinAll() with both
+   workers asleep is possible only before the broadcast (pc <= 24) and only with an empty queue; c17_pool_join_not_stuck:
+   at the two pthread_join calls no worker sleeps.  (Termination itself -- fairness -- is not stated.) *)
+Theorem c17_pool_wakeup : forall n s, reach P (init_pool n) s -> que s PQ <> [] ->
+  pc (thr s 0) = 19 \/
+  exists w, (w = 1 \/ w = 2) /\ (forall c m, stat (thr s w) <> Asleep c m) /\ stat (thr s w) <> Done.
+Proof. exact PoolWake.pool_wakeup. Qed.
+Print Assumptions c17_pool_wakeup.
+
+Theorem c17_pool_no_sleeper_after_shutdown : forall n s, reach P (init_pool n) s -> (25 <=? pc (thr s 0)) = true ->
+  forall w, w = 1 \/ w = 2 ->
+  (forall c m, stat (thr s w) <> Asleep c m) /\ ~ (stat (thr s w) = Ready /\ pc (thr s w) = 12).
+Proof. exact PoolWake2.pool_no_sleeper_after_shutdown. Qed.
+Print Assumptions c17_pool_no_sleeper_after_shutdown.
+
+Theorem c17_pool_no_deadlock : forall n s, reach P (init_pool n) s -> (22 <=? pc (thr s 0)) = true ->
+  (exists c m, stat (thr s 1) = Asleep c m) -> (exists c m, stat (thr s 2) = Asleep c m) ->
+  que s PQ = [] /\ (pc (thr s 0) <=? 24) = true.
+Proof. exact PoolWake2.pool_no_deadlock. Qed.
+Print Assumptions c17_pool_no_deadlock.
+
+Theorem c17_pool_join_not_stuck : forall n s, reach P (init_pool n) s -> pc (thr s 0) = 31 \/ pc (thr s 0) = 40 ->
+  forall w, w = 1 \/ w = 2 -> forall c m, stat (thr s w) <> Asleep c m.
+Proof. exact PoolWake2.pool_join_not_stuck. Qed.
+Print Assumptions c17_pool_join_not_stuck.
+
+(* ---- The same for the ThreadPool with two-stage jobs (init_poolre n r), every schedule, any n and r: whenever a closure
+   is queued -- also a follow-up handed in by a running closure, also after shutdown began -- the owner is at its Signal
+   or some worker will test the queue again (it is not asleep, not finished and not past the shutdown test); after the
+   shutdown broadcast no worker sleeps; the owner inside JoinAll() with both workers asleep: only before the broadcast
+   and only with an empty queue. *)
+Theorem c17_poolre_wakeup : forall n r s, reach P (init_poolre n r) s -> que s PQ <> [] ->
+  pc (thr s 0) = 19 \/
+  exists w, (w = 1 \/ w = 2) /\ (forall c m, stat (thr s w) <> Asleep c m) /\ stat (thr s w) <> Done /\
+            ~ (stat (thr s w) = Ready /\ (pc (thr s w) = 19 \/ pc (thr s w) = 20)).
+Proof. exact PoolReWake.poolre_wakeup. Qed.
+Print Assumptions c17_poolre_wakeup.
+
+Theorem c17_poolre_no_sleeper_after_shutdown : forall n r s, reach P (init_poolre n r) s ->
+  (25 <=? pc (thr s 0)) = true -> forall w, w = 1 \/ w = 2 ->
+  (forall c m, stat (thr s w) <> Asleep c m) /\ ~ (stat (thr s w) = Ready /\ pc (thr s w) = 17).
+Proof. exact PoolReWake.poolre_no_sleeper_after_shutdown. Qed.
+Print Assumptions c17_poolre_no_sleeper_after_shutdown.
+
+Theorem c17_poolre_no_deadlock : forall n r s, reach P (init_poolre n r) s -> (22 <=? pc (thr s 0)) = true ->
+  (exists c m, stat (thr s 1) = Asleep c m) -> (exists c m, stat (thr s 2) = Asleep c m) ->
+  que s PQ = [] /\ (pc (thr s 0) <=? 24) = true.
+Proof. exact PoolReWake.poolre_no_deadlock. Qed.
+Print Assumptions c17_poolre_no_deadlock.
 
 (* ---- ExecutorThread where callbacks call Execute again from inside the callback (scenario init_execre), every
    schedule, any number of producers / callbacks / re-submissions: callbacks are conserved (none duplicated, none
